@@ -52,7 +52,7 @@ def c08_case(draw, tier):
 
 
 STATE = ["window", "window", "window", "slice", "filter", "group_window", "summarize", "join"]
-TRIGGER = ["filter", "filter", "slice_head", "mutate_window", "summarize", "arrange", "group_summarize", "join", "union"]
+TRIGGER = ["filter", "filter", "filter", "slice_head", "mutate_window", "summarize", "arrange", "group_summarize", "join", "union"]
 
 
 def _directed(draw, deep):
@@ -98,7 +98,7 @@ def _directed(draw, deep):
             step(g.v_join)
         new_cols += [(n, c) for n, c in g.t(var).visible if c not in before]
     # hide
-    hide = draw(st.sampled_from(["none", "none", "select", "drop", "overwrite", "rename"]))
+    hide = draw(st.sampled_from(["none", "select", "select", "drop", "drop", "overwrite", "rename"]))
     t = g.t(var)
     live = [(n, c) for n, c in new_cols if (n, c) in t.visible and c not in t.group]
     if live and hide != "none" and len(t.visible) > len(live):
@@ -139,11 +139,12 @@ def _directed(draw, deep):
     elif trig == "union":
         step(g.v_union)
     g.cfg.win_direct = 2
-    if draw(st.booleans()):
-        var = g.expose_hidden(var, k=3)
+    made = {c for _, c in new_cols}
+    if draw(st.integers(0, 3)) > 0:
+        var = g.expose_hidden(var, k=3, prefer=made)
     var = g.extend(var, draw(st.integers(0, 3 if deep else 2)))
     if draw(st.integers(0, 2)) == 0:
-        var = g.expose_hidden(var, k=2)
+        var = g.expose_hidden(var, k=2, prefer=made)
     case = g.case
     case["result"] = var
     case["mode"] = "directed"
